@@ -75,7 +75,9 @@ pub fn fatal_at_1(spec: SpecId) -> (Case, FaultPlan) {
 
 pub fn shapes(spec: SpecId) -> Vec<(Case, Option<FaultPlan>)> {
     let (fc, fp) = fatal_at_1(spec);
+    let (rrm, _) = blocks::retry_reads_more(spec);
     vec![
+        (rrm, None),
         (blocks::independent(spec, 3), None),
         (blocks::nonce_chain(spec, 3), None),
         (blocks::fan_in(spec), None),
@@ -117,7 +119,7 @@ pub fn jobs(tier: Tier) -> Vec<Job> {
         v.push(pipeline_job("c05-live", case, &r2, FINE, 1, false));
     }
     if tier == Tier::Quick {
-        for (case, fault) in shapes.iter().take(2).chain(shapes.iter().skip(4).take(2)) {
+        for (case, fault) in shapes.iter().take(3).chain(shapes.iter().skip(5).take(2)) {
             let mut run = RunCfg::parallel(2);
             run.fault = fault.clone();
             v.push(pipeline_job("c05-live", case, &run, FINE, 2, true));
@@ -149,6 +151,20 @@ pub fn jobs(tier: Tier) -> Vec<Job> {
             let mut j = super::c04::fault_job(&d, plan, false, 2, FOCUS_ATTEMPT, if tier == Tier::Quick { 4 } else { 5 }, true);
             j.family = "c05-stale-error-at-head";
             j.id = j.id.replace("c04-fault", "c05-stale-error-at-head");
+            v.push(j);
+        }
+    }
+    // A retry that fails once (transient fault on a key only the retry reads) and then succeeds with
+    // a smaller write set: the stale version of the dropped location must disappear, or its reader
+    // waits for ever (seeded change C05c). Transient faults need C04's tolerant judge.
+    {
+        let (case, key) = blocks::retry_reads_more(spec);
+        let d = super::c04::Driver { case, stale_keys: vec![] };
+        let plan = FaultPlan { key: Some(key), mode: FaultMode::Once };
+        for (w, gran, bound) in [(2usize, COARSE, if tier == Tier::Quick { 2 } else { 3 }), (2, FINE, 1), (3, COARSE, if tier == Tier::Quick { 1 } else { 2 })] {
+            let mut j = super::c04::fault_job(&d, plan.clone(), true, w, gran, bound, true);
+            j.family = "c05-live";
+            j.id = j.id.replace("c04-fault", "c05-live");
             v.push(j);
         }
     }
